@@ -78,6 +78,9 @@ Recv(a, c, seq, call, pf) == seq \in 1..MaxSeq /\ RecvEff(a, c, seq)
 RotateEff(a) == tssacct' = a /\ UNCHANGED <<reg, ver, upd, rcpt, ackrel, sent, acked, paid, priv>>
 RotateTss(a) == RotateEff(a) /\ last' = [act |-> "Rotate", res |-> "ok", to |-> a]
 
+(* the host chain is restarted from its own exported genesis: registry, clients, receipts, acknowledgements stay *)
+Regenesis == UNCHANGED stateVars /\ last' = [act |-> "Regenesis", res |-> "ok"]
+
 Send == /\ sent < MaxSeq /\ sent' = sent + 1 /\ UNCHANGED <<reg, ver, upd, rcpt, ackrel, acked, paid, priv, tssacct>>
         /\ last' = [act |-> "Send", res |-> "ok"]
 
@@ -103,6 +106,7 @@ Next == \/ \E a \in Accts, cs \in SUBSET Chains, v \in Vers : Register(a, cs, v)
         \/ \E a \in Accts, s \in 1..MaxSeq, rel \in Rels, pf \in Proofs : Ack(a, s, rel, pf)
         \/ \E p \in Paths, m \in Methods : Priv(p, m)
         \/ \E a \in Accts \ {"out"} : RotateTss(a)
+        \/ Regenesis
 Spec == Init /\ [][Next]_vars
 
 -----------------------------------------------------------------------------
